@@ -381,6 +381,16 @@ impl AsServer<'_> {
     }
 }
 
+/// Verification hook: visibility shim over the private [`AsServer::filter_valid_addrs`].
+#[cfg(libp2p_verif)]
+pub fn verif_filter_valid_addrs(
+    peer: PeerId,
+    demanded: Vec<Multiaddr>,
+    observed_remote_at: &Multiaddr,
+) -> Vec<Multiaddr> {
+    AsServer::filter_valid_addrs(peer, demanded, observed_remote_at)
+}
+
 #[cfg(test)]
 mod test {
     use std::net::Ipv4Addr;
